@@ -147,7 +147,7 @@ static int gen_case_inner(rng_t *r, const char *op, const genopt_t *g, sbuf_t *o
       sb_printf(o, "op djb %d %d %d %d\n", rb, rb + 1, rb + 2, mode);
       return 3;
     }
-    if (IS("mul_m4rm") || IS("addmul_m4rm")) sb_printf(o, "op %s %d %d %d %d\n", op, rb, rb + 1, rb + 2, (g_sliver && rng_chance(r, 2, 3)) ? 0 : (int)rng_below(r, 9)); /* flat operands: mostly the automatic k, which is what looks at the caches */
+    if (IS("mul_m4rm") || IS("addmul_m4rm")) sb_printf(o, "op %s %d %d %d %d\n", op, rb, rb + 1, rb + 2, (g_sliver && rng_chance(r, 2, 3)) ? 0 : (int)rng_below(r, 13)); /* flat operands: mostly the automatic k, which is what looks at the caches */
     else if (IS("mul") || IS("addmul") || IS("mul_mp") || IS("addmul_mp")) sb_printf(o, "op %s %d %d %d %ld\n", op, rb, rb + 1, rb + 2, pick_cutoff(r, m, l, n));
     else sb_printf(o, "op %s %d %d %d\n", op, rb, rb + 1, rb + 2);
     return 3;
@@ -190,8 +190,8 @@ static int gen_case_inner(rng_t *r, const char *op, const genopt_t *g, sbuf_t *o
     else
     if (!IS("ech_naive") && D >= 200 && rng_chance(r, 1, 4)) wide_ple_shape(r, o, rb, &m, &n);
     else emit_mat(r, o, rb, m, n, rng_chance(r, 1, 2) ? "rank" : NULL, 1 + (long)rng_below(r, (uint64_t)(m < n ? m : n)));
-    if (IS("ech_m4ri")) sb_printf(o, "op %s %d %d %d\n", op, rb, (int)rng_below(r, 2), (int)rng_below(r, 9));
-    else if (IS("top_ech")) sb_printf(o, "op %s %d %d\n", op, rb, (int)rng_below(r, 9));
+    if (IS("ech_m4ri")) sb_printf(o, "op %s %d %d %d\n", op, rb, (int)rng_below(r, 2), (int)rng_below(r, 11)); /* k up to 10: six tables of k bits fit a word */
+    else if (IS("top_ech")) sb_printf(o, "op %s %d %d\n", op, rb, (int)rng_below(r, 11));
     else sb_printf(o, "op %s %d %d\n", op, rb, hybrid ? (int)(rng_below(r, 4) != 0) : (int)rng_below(r, 2));
     return 1;
   }
@@ -213,7 +213,7 @@ static int gen_case_inner(rng_t *r, const char *op, const genopt_t *g, sbuf_t *o
     emit_perm(r, o, pb + 1, n, rng_chance(r, 1, 2) ? "junk" : "id");
     long par = 0;
     if (IS("ple") || IS("pluq")) { long cs[] = { 0, 0, 64, 128, 256, 1024 }; par = cs[rng_below(r, 6)]; }
-    if (IS("ple_russian") || IS("pluq_russian")) par = (long)rng_below(r, 9);
+    if (IS("ple_russian") || IS("pluq_russian")) par = (long)rng_below(r, 10); /* k up to 9: seven tables of k bits fit a word */
     sb_printf(o, "op %s %d %d %d %ld\n", op, rb, pb, pb + 1, par);
     return 1;
   }
@@ -506,6 +506,7 @@ static int gen_case_inner(rng_t *r, const char *op, const genopt_t *g, sbuf_t *o
   }
   if (IS("to_png") || IS("from_png")) { /* write (and read back) through the simulated file layer */
     int m = gen_dim(r, D > 300 ? 300 : D), n = gen_dim(r, D > 300 ? 300 : D);
+    if (rng_chance(r, 1, 3)) { m = 1 + (int)rng_below(r, 4); n = 8192 + (int)rng_below(r, 900); } /* rows of more than a kilobyte */
     emit_mat(r, o, rb, m, n, NULL, 0);
     sb_printf(o, "op to_png %d 0 %d %d\n", rb, (int)rng_below(r, 11) - 1, (int)rng_below(r, 3));
     if (IS("from_png")) sb_printf(o, "op from_png %d 0\n", rb + 1);
